@@ -94,6 +94,9 @@ type refusal struct {
 	prepare func(s *scenario, r *rand.Rand) bool
 	// expectOK: the command must succeed (and still change nothing)
 	expectOK bool
+	// anyOutcome: a valid set-up; the command may succeed and write — only "non-zero exit
+	// with a changed tree or a reached write boundary" is a violation (failed ⇒ untouched)
+	anyOutcome bool
 }
 
 // e2eRefusals: each precondition-violation scenario × generated project × configuration, the
@@ -107,58 +110,58 @@ func e2eRefusals(c *e2eCtx) error {
 	}
 	brokenGo := "package l0\n\nfunc Broken( {\n"
 	kinds := []refusal{
-		{"not-a-go-module", []string{"track"}, func(s *scenario, r *rand.Rand) bool { os.Remove(filepath.Join(s.dir, "go.mod")); return true }, false},
+		{"not-a-go-module", []string{"track"}, func(s *scenario, r *rand.Rand) bool { os.Remove(filepath.Join(s.dir, "go.mod")); return true }, false, false},
 		{"not-a-git-repository", []string{"track"}, func(s *scenario, r *rand.Rand) bool {
 			return os.Rename(filepath.Join(s.dir, ".git"), filepath.Join(s.dir, "..", filepath.Base(s.dir)+".gitmoved")) == nil
-		}, false},
-		{"missing-config-track", []string{"track"}, func(s *scenario, r *rand.Rand) bool { os.Remove(filepath.Join(s.dir, "goat.yaml")); return true }, false},
-		{"missing-config-patch", []string{"patch"}, func(s *scenario, r *rand.Rand) bool { os.Remove(filepath.Join(s.dir, "goat.yaml")); return true }, false},
-		{"missing-config-clean", []string{"clean"}, func(s *scenario, r *rand.Rand) bool { os.Remove(filepath.Join(s.dir, "goat.yaml")); return true }, false},
+		}, false, false},
+		{"missing-config-track", []string{"track"}, func(s *scenario, r *rand.Rand) bool { os.Remove(filepath.Join(s.dir, "goat.yaml")); return true }, false, false},
+		{"missing-config-patch", []string{"patch"}, func(s *scenario, r *rand.Rand) bool { os.Remove(filepath.Join(s.dir, "goat.yaml")); return true }, false, false},
+		{"missing-config-clean", []string{"clean"}, func(s *scenario, r *rand.Rand) bool { os.Remove(filepath.Join(s.dir, "goat.yaml")); return true }, false, false},
 		{"invalid-granularity", []string{"track"}, func(s *scenario, r *rand.Rand) bool {
 			writeCfg(s, func(c *proj.Config) { c.Granularity = "bogus" })
 			return true
-		}, false},
+		}, false, false},
 		{"invalid-precision", []string{"track"}, func(s *scenario, r *rand.Rand) bool {
 			writeCfg(s, func(c *proj.Config) { c.Precision = 7 })
 			return true
-		}, false},
+		}, false, false},
 		{"invalid-datatype", []string{"patch"}, func(s *scenario, r *rand.Rand) bool {
 			writeCfg(s, func(c *proj.Config) { c.DataType = "float" })
 			return true
-		}, false},
+		}, false, false},
 		{"invalid-printer-mode", []string{"clean"}, func(s *scenario, r *rand.Rand) bool {
 			writeCfg(s, func(c *proj.Config) { c.PrinterModes = []string{"useSpaces", "wide"} })
 			return true
-		}, false},
+		}, false, false},
 		{"malformed-yaml", []string{"track"}, func(s *scenario, r *rand.Rand) bool {
 			os.WriteFile(filepath.Join(s.dir, "goat.yaml"), []byte("appName: [unclosed\n  - x: {\n"), 0644)
 			return true
-		}, false},
-		{"init-existing-config", []string{"init"}, func(s *scenario, r *rand.Rand) bool { return true }, false},
-		{"init-invalid-granularity", []string{"init", "--force", "--granularity", "bogus"}, func(s *scenario, r *rand.Rand) bool { return true }, false},
-		{"init-invalid-precision", []string{"init", "--force", "--diff-precision", "0"}, func(s *scenario, r *rand.Rand) bool { return true }, false},
-		{"init-invalid-datatype-nofile", []string{"init", "--data-type", "x"}, func(s *scenario, r *rand.Rand) bool { os.Remove(filepath.Join(s.dir, "goat.yaml")); return true }, false},
+		}, false, false},
+		{"init-existing-config", []string{"init"}, func(s *scenario, r *rand.Rand) bool { return true }, false, false},
+		{"init-invalid-granularity", []string{"init", "--force", "--granularity", "bogus"}, func(s *scenario, r *rand.Rand) bool { return true }, false, false},
+		{"init-invalid-precision", []string{"init", "--force", "--diff-precision", "0"}, func(s *scenario, r *rand.Rand) bool { return true }, false, false},
+		{"init-invalid-datatype-nofile", []string{"init", "--data-type", "x"}, func(s *scenario, r *rand.Rand) bool { os.Remove(filepath.Join(s.dir, "goat.yaml")); return true }, false, false},
 		{"unresolvable-old-revision", []string{"track"}, func(s *scenario, r *rand.Rand) bool {
 			if s.cfg.Old == "INIT" {
 				return false
 			}
 			writeCfg(s, func(c *proj.Config) { c.Old = "no-such-branch" })
 			return true
-		}, false},
+		}, false, false},
 		{"unresolvable-new-revision", []string{"track"}, func(s *scenario, r *rand.Rand) bool {
 			if s.cfg.Old == "INIT" {
 				return false
 			}
 			writeCfg(s, func(c *proj.Config) { c.New = "no-such-branch" })
 			return true
-		}, false},
+		}, false, false},
 		{"new-revision-not-head", []string{"track"}, func(s *scenario, r *rand.Rand) bool {
 			if s.cfg.Old == "INIT" {
 				return false
 			}
 			writeCfg(s, func(c *proj.Config) { c.New = s.oldRev })
 			return true
-		}, false},
+		}, false, false},
 		{"uncommitted-change", []string{"track"}, func(s *scenario, r *rand.Rand) bool {
 			for _, p := range sortedKeys(s.newTree) {
 				if strings.HasSuffix(p, ".go") {
@@ -167,7 +170,7 @@ func e2eRefusals(c *e2eCtx) error {
 				}
 			}
 			return false
-		}, false},
+		}, false, false},
 		{"staged-change", []string{"track"}, func(s *scenario, r *rand.Rand) bool {
 			for _, p := range sortedKeys(s.newTree) {
 				if strings.HasSuffix(p, ".go") {
@@ -177,12 +180,12 @@ func e2eRefusals(c *e2eCtx) error {
 				}
 			}
 			return false
-		}, false},
+		}, false, false},
 		{"staged-new-file", []string{"track"}, func(s *scenario, r *rand.Rand) bool {
 			os.WriteFile(filepath.Join(s.dir, "staged_new.go"), []byte("package main\n"), 0644)
 			_, err := proj.Git(s.dir, 0, "add", "staged_new.go")
 			return err == nil
-		}, false},
+		}, false, false},
 		{"already-instrumented", []string{"track"}, func(s *scenario, r *rand.Rand) bool {
 			// a committed instrumented tree: the generated file exists, the work tree is clean
 			if run := proj.RunGoat(c.goat, s.dir, nil, "track"); run.Exit != 0 {
@@ -194,7 +197,7 @@ func e2eRefusals(c *e2eCtx) error {
 			proj.Git(s.dir, 0, "add", "-A")
 			_, err := proj.Git(s.dir, 1700000200, "commit", "-q", "-m", "instrumented")
 			return err == nil
-		}, false},
+		}, false, false},
 		{"changed-file-does-not-parse", []string{"track"}, func(s *scenario, r *rand.Rand) bool {
 			t := map[string]string{}
 			for k, v := range s.newTree {
@@ -204,7 +207,7 @@ func e2eRefusals(c *e2eCtx) error {
 			_, err := proj.Commit(s.dir, t, 1700000200, "broken")
 			proj.WriteConfig(s.dir, s.cfg)
 			return err == nil
-		}, false},
+		}, false, false},
 		{"changed-file-broken-by-unterminated-tail", []string{"track"}, func(s *scenario, r *rand.Rand) bool {
 			// the only change of one file is text after its final newline (a stray brace, no trailing
 			// newline) that makes it unparsable; precision 1 (blame sees the line; at precision 2/3 the
@@ -231,7 +234,7 @@ func e2eRefusals(c *e2eCtx) error {
 			cfg.Old = s.oldRev
 			s.cfg = cfg
 			return proj.WriteConfig(s.dir, cfg) == nil
-		}, false},
+		}, false, false},
 		{"no-main-package", []string{"track"}, func(s *scenario, r *rand.Rand) bool {
 			t := map[string]string{}
 			for k, v := range s.newTree {
@@ -248,7 +251,7 @@ func e2eRefusals(c *e2eCtx) error {
 			_, err := proj.Commit(s.dir, t, 1700000200, "no mains")
 			proj.WriteConfig(s.dir, s.cfg)
 			return err == nil
-		}, false},
+		}, false, false},
 		{"no-main-package-patch", []string{"patch"}, func(s *scenario, r *rand.Rand) bool {
 			t := map[string]string{}
 			for k, v := range s.newTree {
@@ -265,20 +268,20 @@ func e2eRefusals(c *e2eCtx) error {
 			_, err := proj.Commit(s.dir, t, 1700000200, "no mains")
 			proj.WriteConfig(s.dir, s.cfg)
 			return err == nil
-		}, false},
+		}, false, false},
 		{"clean-unparsable-marked-file", []string{"clean"}, func(s *scenario, r *rand.Rand) bool {
 			if run := proj.RunGoat(c.goat, s.dir, nil, "track"); run.Exit != 0 {
 				return false
 			}
 			// a hand-marked file that does not parse, sorted after the instrumented ones
 			return os.WriteFile(filepath.Join(s.dir, "pkg", "l0", "zz_broken.go"), []byte("package l0\n\n// +goat:insert\nfunc Broken( {\n"), 0644) == nil
-		}, false},
+		}, false, false},
 		{"patch-unparsable-marked-file", []string{"patch"}, func(s *scenario, r *rand.Rand) bool {
 			if run := proj.RunGoat(c.goat, s.dir, nil, "track"); run.Exit != 0 {
 				return false
 			}
 			return os.WriteFile(filepath.Join(s.dir, "pkg", "l0", "zz_broken.go"), []byte("package l0\n\n// +goat:insert\nfunc Broken( {\n"), 0644) == nil
-		}, false},
+		}, false, false},
 		{"nothing-to-instrument-comments-only", []string{"track"}, func(s *scenario, r *rand.Rand) bool {
 			// HEAD differs from the old revision only in comments and a type declaration; the printer
 			// settings differ from gofmt's, so re-printing a file would change its bytes
@@ -300,13 +303,13 @@ func e2eRefusals(c *e2eCtx) error {
 			cfg.Tabwidth = 4
 			s.cfg = cfg
 			return proj.WriteConfig(s.dir, cfg) == nil
-		}, true},
+		}, true, false},
 		{"nothing-to-instrument", []string{"track"}, func(s *scenario, r *rand.Rand) bool {
 			writeCfg(s, func(c *proj.Config) { c.Old = "HEAD" })
 			return true
-		}, true},
-		{"patch-without-markers", []string{"patch"}, func(s *scenario, r *rand.Rand) bool { return true }, true},
-		{"clean-without-artefacts", []string{"clean"}, func(s *scenario, r *rand.Rand) bool { return true }, true},
+		}, true, false},
+		{"patch-without-markers", []string{"patch"}, func(s *scenario, r *rand.Rand) bool { return true }, true, false},
+		{"clean-without-artefacts", []string{"clean"}, func(s *scenario, r *rand.Rand) bool { return true }, true, false},
 		{"patch-without-markers-after-unformatted-edit", []string{"patch"}, func(s *scenario, r *rand.Rand) bool {
 			// instrumented tree, then a hand edit that is valid Go but not in go/printer layout, no marker
 			if run := proj.RunGoat(c.goat, s.dir, nil, "track"); run.Exit != 0 {
@@ -319,7 +322,35 @@ func e2eRefusals(c *e2eCtx) error {
 				}
 			}
 			return false
-		}, true},
+		}, true, false},
+		// valid but unusual set-ups: whatever the command decides, a failure must leave the tree alone
+		{"valid-main-entries-with-missing-directory", []string{"track"}, func(s *scenario, r *rand.Rand) bool {
+			writeCfg(s, func(c *proj.Config) { c.MainEntries = []string{"cmd/m0", "cmd/does-not-exist", "./cmd/m0/"} })
+			return true
+		}, false, true},
+		{"valid-track", []string{"track"}, func(s *scenario, r *rand.Rand) bool { return true }, false, true},
+		{"valid-patch-after-delete-marker", []string{"patch"}, func(s *scenario, r *rand.Rand) bool {
+			if run := proj.RunGoat(c.goat, s.dir, nil, "track"); run.Exit != 0 {
+				return false
+			}
+			n := 0
+			for rel := range s.newTree {
+				if !strings.HasSuffix(rel, ".go") || n >= 2 {
+					continue
+				}
+				b, err := os.ReadFile(filepath.Join(s.dir, rel))
+				if err != nil || !strings.Contains(string(b), "// +goat:generate") {
+					continue
+				}
+				os.WriteFile(filepath.Join(s.dir, rel), []byte(strings.Replace(string(b), "// +goat:generate", "// +goat:delete", 1)), 0644)
+				n++
+			}
+			return n > 0
+		}, false, true},
+		{"valid-clean-after-track", []string{"clean"}, func(s *scenario, r *rand.Rand) bool {
+			return proj.RunGoat(c.goat, s.dir, nil, "track").Exit == 0
+		}, false, true},
+		{"valid-init-force", []string{"init", "--force", "--app-name", "x y", "--granularity", "func"}, func(s *scenario, r *rand.Rand) bool { return true }, false, true},
 	}
 	// what the Lean plan (Cmd.plan) is told about each scenario: flag overrides of a valid
 	// environment and the refusal it must predict ("" = ok without writes)
@@ -435,6 +466,16 @@ func e2eRefusals(c *e2eCtx) error {
 					Replay: map[string]any{"broken": "correspondence Cmd.plan", "scenario_kind": k.name, "flags": bits, "stderr": tail(run.Stderr, 800)}})
 				c.mu.Unlock()
 			}
+		}
+		if k.anyOutcome {
+			// failed ⇒ untouched; a successful run may write
+			if run.Exit != 0 {
+				if d := diffSnap(before, after); len(d) > 0 {
+					c.violate("C12", fmt.Sprintf("%s: goat %s failed (exit %d: %s) after it had created, modified or deleted %v", k.name, k.cmd[0], run.Exit, lastLine(run.Stderr), d), rp())
+				}
+			}
+			os.Remove(wl)
+			return
 		}
 		if k.expectOK && run.Exit != 0 {
 			c.violate("C12", fmt.Sprintf("%s: goat %s must succeed without doing anything but exited %d: %s", k.name, k.cmd[0], run.Exit, lastLine(run.Stderr)), rp())
